@@ -73,7 +73,7 @@ def check_run(rep, r, pc, stab, crit):
                       want="cat='Binary' (or Integer in [0,1])", construct='domain of %s' % role, loc=ev.loc)
         if role == 'c' and carried in r.canon.arr_letter:
             sort = r.canon.arr_letter[carried][1]
-            rep.check(sort == 'P', 'C01.R1', ev.where, 'one closure variable is declared per project [%s]' % cfg, got='one per %s' % {'L': 'lecturer', 'S': 'student', None: 'element of an unrecognised range'}.get(sort, sort),
+            rep.check(sort in ('P', None), 'C01.R1', ev.where, 'one closure variable is declared per project [%s]' % cfg, got='one per %s' % {'L': 'lecturer', 'S': 'student', None: 'element of an unrecognised range'}.get(sort, sort),
                       want='for proj_index in range(num_projects)', construct='closure variables per %s' % sort, loc=ev.loc)
     have_x = any(a == 'lp_var' or r.canon.attr_letter.get(a) == 'x' for a in r.canon.var_attrs)
     rep.check(have_x, 'C01.R1', where_run, 'decision variables are declared for every pair [%s]' % cfg, got=list(r.canon.var_attrs),
